@@ -33,6 +33,8 @@ type Alpha struct {
 	Ticks     []int    // deviation: clock ticks (seconds)
 	FreeTicks []int    // always-enabled clock ticks (seconds)
 	Restart   bool     // deviation: controller restart (fresh in-memory state)
+	// EDSFaults: deviation variants of R_eds with one injected fault each
+	EDSFaults []string
 	// ERSFaults: deviation variants of R_ers with one injected fault each ("<kind>:<text>", see Apply)
 	ERSFaults []string
 	// OnlyERS: offer R_ers only for replica sets whose name is listed (empty = all)
@@ -184,6 +186,11 @@ func (a *Alpha) Enabled(s *State) []Event {
 	}
 	for _, t := range a.Ticks {
 		evs = append(evs, Event{K: "tick", N: t, Dev: dev})
+	}
+	for _, e := range edss {
+		for _, f := range a.EDSFaults {
+			evs = append(evs, Event{K: "R_eds", A: nn(e), B: "fault:" + f, Dev: dev})
+		}
 	}
 	for _, r := range s.ERSs() {
 		if len(a.OnlyERS) > 0 && !contains(a.OnlyERS, r.Name) {
